@@ -25,7 +25,7 @@ RECURSIVE Strings(_, _)
 Strings(S, n) == IF n = 0 THEN {<<>>} ELSE LET P == Strings(S, n - 1) IN P \cup {Append(s, b) : s \in {q \in P : Len(q) = n - 1}, b \in S}
 
 Alpha(gg) == Range(Gs[gg].alpha) \cup WSBYTES
-Opts == {[v |-> TRUE, ws |-> TRUE, nl |-> TRUE]}
+Opts == {[v |-> TRUE, ws |-> TRUE, nl |-> TRUE, cat |-> 0]}
 
 Init == \E gg \in 1..NG : \E bytes \in Strings(Alpha(gg), L) : \E o \in Opts : D!Init0(gg, bytes, o)
 Next == D!DNext
@@ -104,7 +104,7 @@ StackFitsReported == ~Done \/ mxd <= StackCap
 (************************* expected behaviours for given inputs ***********)
 \* VERIF_GIVEN: ndjson of [g, bytes, ws, nl]; TLC runs the specification on each and prints the outcome
 Given == IF "VERIF_GIVEN" \in DOMAIN IOEnv THEN ndJsonDeserialize(IOEnv.VERIF_GIVEN) ELSE <<>>
-InitGiven == \E i \in 1..Len(Given) : D!Init0(Given[i].g, Given[i].bytes, [v |-> TRUE, ws |-> Given[i].ws, nl |-> Given[i].nl])
+InitGiven == \E i \in 1..Len(Given) : D!Init0(Given[i].g, Given[i].bytes, [v |-> TRUE, ws |-> Given[i].ws, nl |-> Given[i].nl, cat |-> 0])
 SpecGiven == InitGiven /\ [][Next]_vars
 VerdictReported == ~Done \/ PrintT(<<"VERDICT", ToJson([g |-> g, bytes |-> inp, ws |-> opt.ws, nl |-> opt.nl, status |-> status, msgs |-> msgs,
                                                          root |-> IF status = "acc" THEN vals[1] ELSE -1, maxstack |-> mxd,
